@@ -91,12 +91,12 @@ class Recorder(_BASE):
         return _BASE.add_isa_loop(self, seg_data, src)
 
     def add_gs_loop(self, seg_data, src):
-        self._log('add_gs', id=S(src.get_gs_id()), kind=S(seg_data.get_value('GS01')), x=SN(seg_data.get_value('GS08')),
+        self._log('add_gs', id=S(seg_data.get_value('GS06')), kind=S(seg_data.get_value('GS01')), x=SN(seg_data.get_value('GS08')),
                   info=[S(seg_data.get_value('GS%02d' % i)) for i in (2, 3, 6, 7)])
         return _BASE.add_gs_loop(self, seg_data, src)
 
     def add_st_loop(self, seg_data, src):
-        self._log('add_st', id=S(src.get_st_id()), kind=S(seg_data.get_value('ST01')), x=SN(seg_data.get_value('ST03')))
+        self._log('add_st', id=S(seg_data.get_value('ST02')), kind=S(seg_data.get_value('ST01')), x=SN(seg_data.get_value('ST03')))
         return _BASE.add_st_loop(self, seg_data, src)
 
     def add_seg(self, map_node, seg_data, seg_count, cur_line, ls_id):
